@@ -451,6 +451,38 @@ pub fn run(ctx: &mut Ctx) {
             }
         }
     }
+    // straddle strings indexed at, before and after the straddling character
+    for (st, ci) in al::straddle_strings() {
+        if !ctx.mine() {
+            continue;
+        }
+        let n = st.chars().count() as i64;
+        let ci = ci as i64;
+        let d = json!({"s": st, "l": [st]});
+        for i in [ci - 1, ci, ci + 1, ci - n, n - 1, n, -n, -n - 1] {
+            ctx.edge();
+            ctx.check("path:straddle", &var(json!(format!("s.{}", i))), &d);
+            ctx.check("path:straddle:nested", &var(json!([format!("l.0.{}", i), "dflt"])), &d);
+            ctx.check("path:straddle:missing", &json!({"missing": [format!("s.{}", i)]}), &d);
+        }
+        ctx.check("path:straddle:int-key", &var(json!(ci)), &json!(st));
+    }
+    // paths far longer than any data is deep that still resolve: a character of a string is a string, whose
+    // character 0 (and -1) is itself, any number of times
+    for n in al::size_classes(ctx.tier_thorough) {
+        if !ctx.mine() {
+            continue;
+        }
+        let d = json!({"a": "xyz", "l": ["pq"]});
+        for step in ["0", "-1"] {
+            ctx.edge();
+            let tail = vec![step; n].join(".");
+            ctx.check("path:char-of-char", &var(json!(format!("a.1.{}", tail))), &d);
+            ctx.check("path:char-of-char:default", &var(json!([format!("l.0.1.{}", tail), "dflt"])), &d);
+            ctx.check("path:char-of-char:absent", &var(json!([format!("a.1.{}.1", tail), "dflt"])), &d);
+            ctx.check("path:char-of-char:missing", &json!({"missing": [format!("a.1.{}", tail), format!("a.1.{}.2", tail)]}), &d);
+        }
+    }
     crate::spaces::render_probes(ctx, &["var"]);
     crate::spaces::width_probes(ctx);
     crate::spaces::type_grid_probes(ctx, &["var"]);
